@@ -557,7 +557,9 @@ def check_guards(prog, check):
             raise AnalysisError('no guarded append to %s found' % attr)
     # '__' guard before AddEquation in the variable-creating method
     n_us = 0
-    for fn in prog.all_functions():
+    from ..inline import flatten as _flat_us
+    for fn_raw_us in prog.all_functions():
+        fn = _flat_us(prog, fn_raw_us)       # a shared guard helper (`_reject_double_underscore(name, what)`) is read in place
         adds = [n for n in ast.walk(fn.node) if isinstance(n, ast.Call) and call_name(n) == 'AddEquation' and
                 isinstance(n.func.value, ast.Attribute) and n.func.value.attr == 'EquationBlock']
         if not adds or fn.cls is None or not any(c.name == 'Sector' for c in fn.cls.mro):
